@@ -17,22 +17,39 @@ def configs(ctx, b, selfops=False):
         cs = [(m, "Map K=9", dict(keys=9, _big=True, **so)),
               (mm, "MultiMap K=3 max=7", dict(keys=3, maxsize=7, **so)),
               (mm, "MultiMap K=2 max=8", dict(keys=2, maxsize=8, **so))]
+        sparse = [(6, 5, False), (6, 4, True)]
     else:
         cs = [(m, "Map K=12", dict(keys=12, _big=True, **so)),
               (mm, "MultiMap K=4 max=9", dict(keys=4, maxsize=9, _big=True, **so)),
               (mm, "MultiMap K=2 max=12", dict(keys=2, maxsize=12, **so))]
+        sparse = [(6, 6, False), (6, 6, True), (7, 5, False), (7, 5, True)]
+    if not selfops:
+        # sparse (Fibonacci-shaped) trees are where removal rebalancing is stressed: start from the minimal AVL
+        # tree of a given height and explore every removal / re-insertion sequence up to a depth
+        for h, d, mir in sparse:
+            for b_, nm in ((m, "Map"), (mm, "MultiMap")):
+                o = dict(fib=h, depth=d, _big=True)
+                if mir:
+                    o["mirror"] = True
+                cs.append((b_, "%s fib h=%d depth=%d%s" % (nm, h, d, " mirrored" if mir else ""), o))
     return cs
 
 RULE = ("BFS over histories of insert / hinted insert at every position / remove by key, iterator, front, back / clear / "
         "copy-construct / assign / bulk insert on the real Map and MultiMap, de-duplicated on the pre-order tree shape "
         "(keys, height, slope); after every transition the container is compared with a sorted reference "
         "(iteration both ways, size, front/back, find/contains/count of every key, returned iterators) and the "
-        "comparison counter of find is checked against 2*floor(1.4405*log2(n+2))")
+        "comparison counter of find is checked against 2*floor(1.4405*log2(n+2)). Additional configurations start every history "
+        "from the minimal (Fibonacci-shaped) AVL tree of height 6/7 (20/33 keys, built by level-order insertion, also mirrored) and "
+        "explore all remove(key)/insert(key) sequences up to the stated depth (depth-bounded, not a fix-point)")
 
 def run(ctx):
     b = builders(ctx)
     K.run_bfs_configs(ctx, configs(ctx, b))
     cov = K.mc_coverage(ctx, RULE, {"max_find_comparisons": ctx.counters.get("max:find_comparisons")})
+    # the sparse-tree configurations are depth bounded by design; the claim "exhaustive" is per configuration:
+    cov["exhaustive"] = not ctx.counters.get("deadline_hit") and not ctx.counters.get("state_cap_hit")
+    cov["exhaustive_meaning"] = ("finite-universe configurations ran to a fix-point; sparse-tree configurations enumerated every "
+                                 "history up to their depth bound (see counters max:depth_completed:*)")
     return ctx.finish("model_checking", cov,
                       ["key universe 0..K-1 (values never influence control flow)",
                        "which of several equal keys MultiMap::find/remove(key) picks and where a hinted equal key lands "
